@@ -68,7 +68,7 @@ Inductive ekind := KLeaf | KDir | KAnyData | KAnyXML | KCase | KChoice | KInput 
 Inductive entry :=
 | Entry (name : str) (kind : ekind) (cfg mand : tri) (dflt : list str) (units : str)
         (ty : option str) (key : str)
-        (la : option (N * N))                        (* ListAttr: min, max *)
+        (la : option (N * N * (bool * bool)))        (* ListAttr: min, max, (min-elements statement present, max-elements statement present) *)
         (ns : option str)                            (* namespace stamped by an augment *)
         (dir : option (list (str * entry)))          (* Dir; None = nil map *)
         (rpc : option (option entry * option entry)) (* RPC: input, output *).
@@ -282,6 +282,7 @@ Definition tri_err (t : tri) : bool := false.   (* config/mandatory values are w
 Definition semCheckMax (v : option N) : N * bool :=
   match v with None => (MaxUint64, false) | Some x => if x =? 0 then (0, true) else (x, false) end.
 Definition semCheckMin (v : option N) : N := match v with None => 0 | Some x => x end.
+Definition is_some {A} (v : option A) : bool := match v with Some _ => true | None => false end.
 
 Definition leaf_entry (name ty : str) (cfg mand : tri) (dflt : list str) (units : option str) : built :=
   (Entry name KLeaf cfg mand dflt [] (Some ty) [] None None None None, negb (is_builtin ty)).
@@ -320,7 +321,7 @@ Fixpoint to_entry (fuel : nat) (c : gctx) (busy : list nat) (n : dnode) {struct 
         leaf_entry name ty cfg mand (match dflt with Some d => [d] | None => [] end) units
     | DLeafList name ty cfg dflts minE maxE =>
         let '(mx, bad) := semCheckMax maxE in
-        (Entry name KLeaf cfg TSUnset dflts [] (Some ty) [] (Some (semCheckMin minE, mx)) None None None,
+        (Entry name KLeaf cfg TSUnset dflts [] (Some ty) [] (Some (semCheckMin minE, mx, (is_some minE, is_some maxE))) None None None,
          negb (is_builtin ty) || bad)
     | DContainer name cfg body =>
         let '(d, e) := body_dir name body in
@@ -329,7 +330,7 @@ Fixpoint to_entry (fuel : nat) (c : gctx) (busy : list nat) (n : dnode) {struct 
         let '(d, e) := body_dir name body in
         let '(mx, bad) := semCheckMax maxE in
         (Entry name KDir cfg TSUnset [] [] None (match key with Some k => k | None => [] end)
-               (Some (semCheckMin minE, mx)) None (Some d) None, e || bad)
+               (Some (semCheckMin minE, mx, (is_some minE, is_some maxE))) None (Some d) None, e || bad)
     | DChoice name cfg mand dflt body =>
         let '(d, e) := body_dir name body in
         (Entry name KChoice cfg mand (match dflt with Some x => [x] | None => [] end) [] None [] None None (Some d) None, e)
@@ -724,7 +725,7 @@ Definition set_units (e : entry) (u : str) :=
   match e with Entry n k c m df _ t ky la ns d r => Entry n k c m df u t ky la ns d r end.
 Definition set_ty (e : entry) (t : option str) :=
   match e with Entry n k c m df u _ ky la ns d r => Entry n k c m df u t ky la ns d r end.
-Definition set_la (e : entry) (la : option (N * N)) :=
+Definition set_la (e : entry) (la : option (N * N * (bool * bool))) :=
   match e with Entry n k c m df u t ky _ ns d r => Entry n k c m df u t ky la ns d r end.
 Definition is_set (t : tri) : bool := match t with TSUnset => false | _ => true end.
 
@@ -743,9 +744,9 @@ Definition apply_add_replace (replace : bool) (dv : deviate) (t : entry) : entry
   let listy := isList t || isLeafList t in
   match dv_min dv with
   | Some _ => if negb listy then (t, true) else
-    let t := match e_la t with Some (_, mx) => set_la t (Some (semCheckMin (dv_min dv), mx)) | None => t end in
+    let t := match e_la t with Some (_, mx, (_, hx)) => set_la t (Some (semCheckMin (dv_min dv), mx, (true, hx))) | None => t end in
     match dv_max dv with
-    | Some mx => let t := match e_la t with Some (mn, _) => set_la t (Some (mn, mx)) | None => t end in
+    | Some mx => let t := match e_la t with Some (mn, _, (hm, _)) => set_la t (Some (mn, mx, (hm, true))) | None => t end in
       let t := match dv_units dv with Some u => set_units t u | None => t end in
       let t := match dv_type dv with Some ty => set_ty t (Some ty) | None => t end in (t, e1)
     | None =>
@@ -755,7 +756,7 @@ Definition apply_add_replace (replace : bool) (dv : deviate) (t : entry) : entry
   | None =>
     match dv_max dv with
     | Some mx => if negb listy then (t, true) else
-      let t := match e_la t with Some (mn, _) => set_la t (Some (mn, mx)) | None => t end in
+      let t := match e_la t with Some (mn, _, (hm, _)) => set_la t (Some (mn, mx, (hm, true))) | None => t end in
       let t := match dv_units dv with Some u => set_units t u | None => t end in
       let t := match dv_type dv with Some ty => set_ty t (Some ty) | None => t end in (t, e1)
     | None =>
@@ -780,20 +781,20 @@ Definition apply_delete (dv : deviate) (t : entry) : entry * bool :=
   let listy := isList t || isLeafList t in
   match dv_min dv with
   | Some _ => if negb listy then (t, true) else
-    let bad := match e_la t with Some (mn, _) => negb (mn =? semCheckMin (dv_min dv)) | None => false end in
-    let t := match e_la t with Some (_, mx) => set_la t (Some (0, mx)) | None => t end in
+    let bad := match e_la t with Some (mn, _, (hm, _)) => negb (mn =? semCheckMin (dv_min dv)) || negb hm | None => false end in
+    let t := match e_la t with Some (_, mx, (_, hx)) => set_la t (Some (0, mx, (false, hx))) | None => t end in
     match dv_max dv with
     | Some mx =>
-      let bad2 := match e_la t with Some (_, cur) => negb (cur =? mx) | None => false end in
-      let t := match e_la t with Some (mn, _) => set_la t (Some (mn, MaxUint64)) | None => t end in
+      let bad2 := match e_la t with Some (_, cur, (_, hx)) => negb (cur =? mx) || negb hx | None => false end in
+      let t := match e_la t with Some (mn, _, (hm, _)) => set_la t (Some (mn, MaxUint64, (hm, false))) | None => t end in
       (t, e1 || bad || bad2)
     | None => (t, e1 || bad)
     end
   | None =>
     match dv_max dv with
     | Some mx => if negb listy then (t, true) else
-      let bad2 := match e_la t with Some (_, cur) => negb (cur =? mx) | None => false end in
-      let t := match e_la t with Some (mn, _) => set_la t (Some (mn, MaxUint64)) | None => t end in
+      let bad2 := match e_la t with Some (_, cur, (_, hx)) => negb (cur =? mx) || negb hx | None => false end in
+      let t := match e_la t with Some (mn, _, (hm, _)) => set_la t (Some (mn, MaxUint64, (hm, false))) | None => t end in
       (t, e1 || bad2)
     | None => (t, e1)
     end
